@@ -125,12 +125,35 @@ Lemma wf_with_meas E m q : wf_query E q -> wf_query E (with_meas m q).
 Proof.
   intros H. unfold with_meas. destruct (truthy m); [|exact H]. cbn. auto.
 Qed.
-(* exact shapes pass the code's own guard *)
-Lemma exact_is_exact q : exact_for_index q = true -> index_is_exact q = true.
+(* the queries the DSL can build: Time/Measurement paths hold only map() functions (a key on
+   them raises "This query does not require a key"), Tag/Field paths are non-empty, a TimeQuery
+   is compared against a datetime *)
+Fixpoint dsl_query (q : query) : bool :=
+  match q with
+  | QS ATime path t => forallb part_is_map path && match t with TCmp _ (VTime _) => true | TCmp _ _ => false | _ => true end
+  | QS AMeas path _ => forallb part_is_map path
+  | QS _ [] _ => false
+  | QS _ (_ :: _) _ => true
+  | QNoop _ => true
+  | QAnd l r | QOr l r => dsl_query l && dsl_query r
+  | QNot q' => dsl_query q'
+  end.
+
+Lemma hashable_maps_nil path : path_hashable path = true -> forallb part_is_map path = true -> path = [].
+Proof. destruct path as [|[k|id] r]; cbn; intros; try discriminate; reflexivity. Qed.
+
+(* whenever the code's own guard (database.index_is_exact) sends a DSL query to the index, the
+   query has a shape the index answers exactly *)
+Lemma dsl_index_exact q : dsl_query q = true -> index_is_exact q = true -> exact_for_index q = true.
 Proof.
-  induction q as [a path t|a|l IHl r IHr|l IHl r IHr|q' IH]; intros H; cbn [index_is_exact]; auto.
-  - cbn in H. apply andb_true_iff in H. destruct H. now rewrite IHl, IHr.
-  - cbn in H. apply andb_true_iff in H. destruct H. now rewrite IHl, IHr.
-  - cbn [exact_for_index] in H. apply andb_true_iff in H. destruct H as [Hn Hx].
-    apply negb_true_iff in Hn. rewrite Hn. auto.
+  induction q as [a path t|a|l IHl r IHr|l IHl r IHr|q' IH]; cbn [dsl_query index_is_exact exact_for_index]; intros Hd Hx; auto.
+  - destruct a.
+    + apply andb_true_iff in Hd. destruct Hd as [Hm Ht]. rewrite (hashable_maps_nil path Hx Hm).
+      destruct t as [c [ | | | | | ]| | | | ]; try discriminate; reflexivity.
+    + destruct path; reflexivity.
+    + destruct path as [|[k|id] rest]; cbn in *; try discriminate; reflexivity.
+    + destruct path as [|[k|id] rest]; cbn in *; try discriminate; reflexivity.
+  - apply andb_true_iff in Hd. apply andb_true_iff in Hx. destruct Hd, Hx. now rewrite IHl, IHr.
+  - apply andb_true_iff in Hd. apply andb_true_iff in Hx. destruct Hd, Hx. now rewrite IHl, IHr.
+  - destruct (is_field_simple q'); [discriminate|]. cbn [negb andb]. now apply IH.
 Qed.
